@@ -92,7 +92,8 @@ def classify(value):
     """Kind and comparable value of a loaded document scalar."""
     if value is None:
         return "null", None
-    if isinstance(value, bool):
+    if isinstance(value, bool) or type(value).__name__ == "ScalarBoolean":
+        # (an anchored boolean is loaded as a wrapper around 1 / 0)
         return "bool", bool(value)
     if isinstance(value, int):
         return "int", int(value)
